@@ -147,6 +147,10 @@ loop:
 			Strs("command", p.getCommand()).
 			Msg("Started")
 
+		// every launch is probed afresh: the consecutive-failure counts (and the initial delay) of the
+		// previous launch do not carry over, otherwise a relaunched process that keeps failing is never
+		// found unhealthy again (the count has already passed failure_threshold)
+		p.stopProbes()
 		p.startProbes()
 
 		p.waitForStdOutErr()
